@@ -74,6 +74,12 @@ inline std::string jstr(const std::string &s) {
   }
   return r + "\"";
 }
+// JSON string literal that keeps UTF-8 bytes as they are (for documents handed to the library)
+inline std::string jutf8(const std::string &s) {
+  std::string r = "\""; char buf[8];
+  for (unsigned char c : s) { if (c == '"') r += "\\\""; else if (c == '\\') r += "\\\\"; else if (c < 0x20) { snprintf(buf, sizeof buf, "\\u%04x", c); r += buf; } else r += (char)c; }
+  return r + "\"";
+}
 // decode of jstr-encoded string read back by jansson (utf-8 of latin-1 code points) -> raw bytes
 inline std::string from_latin1_utf8(const std::string &u) {
   std::string r;
